@@ -197,6 +197,7 @@ def plan(tier):
     units.append(('hygiene', tier))
     units.append(('ownalias', tier))
     units += [('functions', tier, k, 8) for k in range(8)]
+    units += [('typemix', tier, k, 4) for k in range(4)]
     for kind in HISTORY_POOL:
         for first in range(len(HISTORY_POOL[kind])):
             units.append(('history', tier, kind, first))
@@ -281,6 +282,26 @@ def run(unit):
                     check_text(kind, text, r, len(text))
         r.count('states', r.counters['evaluations'])
         r.sample({'function_call': 'max(xs) > 0'})
+    elif what == 'typemix':
+        # type errors whose message has to name a combination of base types: a variable bound over a set literal with
+        # members of 1-3 different kinds (or over a range / an array), used where each single type is demanded
+        from itertools import combinations
+
+        members = ['1', 'True', '"a"', 'x', 'xs', '[0 to 1]', '{1}', 'm.f', '@A.y']
+        uses = ['not @v', '@v + 1 > 0', '(@v implies p)', 'xs[@v] > 0', 'len(@v) > 0', '@v.f > 0', '@v = "a"', '@v in xs', '@v < "s"', '@v[0] = 1', '(@v and @v > 1)', 'x in [@v to 3]', 'abs(@v) = @v', '@v']
+        doms = ['{' + ', '.join(c) + '}' for n_ in (1, 2, 3) for c in combinations(members, n_)] + ['[0 to 3]', 'xs', '@A.xs', '{}', 'x', '"a"', '1']
+        n = 0
+        for dom in doms:
+            for use in uses:
+                for q in ('forall', 'exists'):
+                    n += 1
+                    if n % unit[3] != unit[2]:
+                        continue
+                    body = f'{q} v in {dom}: {use}'
+                    for kind, text in (('expr', body), ('pred', '{ ' + body + ' }'), ('prop', 'after s as A: no t { ' + body + ' }')):
+                        check_text(kind, text, r, len(text))
+        r.count('states', r.counters['evaluations'])
+        r.sample({'typemix': 'forall v in {1, "a"}: (@v implies p)'})
     elif what == 'ownalias':
         for kind, text in ownalias_texts():
             check_text(kind, text, r, len(text))
@@ -341,7 +362,7 @@ def replay(w):
 def describe(tier):
     b = bounds(tier)
     return {
-        'rule': f"(a) all token sequences of length <= {b['seq_len_full']} over a {len(ALPHABET)}-token alphabet and <= {b['seq_len_core']} over a core alphabet, 5 entry points; (b) all single{' and double' if b['double_edits'] else ''} token edits of a {sum(len(v) for v in c01.CORPUS.values())}-text corpus; (c) all strings of length <= {b['chars_len']} over {len(AWKWARD)} awkward characters and every single insertion of each at every position of the corpus; (d) 20 nesting shapes at depths 1..{b['depth']}; (e) every call history of length <= {b['history_len']} over a 18/19-text pool on one parser object per entry point (5 entry points), last outcome compared with a fresh parser. (h) 29 function names (the 27 built-in ones, an unknown one, a wrongly capitalised one) x 33 argument shapes x 7 entry-point shapes. (g) 24 predicates that refer to the event's own alias in every kind of slot x 6 event positions + files. (f) quantifier hygiene: 8 outer quantifiers (4 of them over domains that exercise every printing branch, since the messages quote the offending node) x 16 wrappers (every connective, domains through int(...), indices, a second quantifier) x 6 inner quantifiers that re-bind / shadow / leak / never use a variable, through 7 entry-point shapes. A transition = one parser call; states (e) = distinct (last two calls, outcome) triples.",
+        'rule': f"Plus quantifiers over set literals with members of 1-3 kinds among 9 (and over ranges, arrays and non-containers) x 14 uses of the bound variable that each demand one type x 2 quantifiers x 3 entry points (type errors whose message names a combination of types). (a) all token sequences of length <= {b['seq_len_full']} over a {len(ALPHABET)}-token alphabet and <= {b['seq_len_core']} over a core alphabet, 5 entry points; (b) all single{' and double' if b['double_edits'] else ''} token edits of a {sum(len(v) for v in c01.CORPUS.values())}-text corpus; (c) all strings of length <= {b['chars_len']} over {len(AWKWARD)} awkward characters and every single insertion of each at every position of the corpus; (d) 20 nesting shapes at depths 1..{b['depth']}; (e) every call history of length <= {b['history_len']} over a 18/19-text pool on one parser object per entry point (5 entry points), last outcome compared with a fresh parser. (h) 29 function names (the 27 built-in ones, an unknown one, a wrongly capitalised one) x 33 argument shapes x 7 entry-point shapes. (g) 24 predicates that refer to the event's own alias in every kind of slot x 6 event positions + files. (f) quantifier hygiene: 8 outer quantifiers (4 of them over domains that exercise every printing branch, since the messages quote the offending node) x 16 wrappers (every connective, domains through int(...), indices, a second quantifier) x 6 inner quantifiers that re-bind / shadow / leak / never use a variable, through 7 entry-point shapes. A transition = one parser call; states (e) = distinct (last two calls, outcome) triples.",
         'bounds': b,
         'exhaustive': True,
         'assumptions': ['documented failure classes: HplSyntaxError, HplSanityError, TypeError, ValueError for an unknown function name; watchdog of 10 s per call for termination'],
